@@ -484,6 +484,22 @@ func (ex *Exec) concretizeAny(s *State, t *Term, pend *pending) (uint64, bool) {
 	return v, true
 }
 
+// scalarish values can be merged with ite; anything holding references cannot in general.
+func scalarish(v Value) bool {
+	switch x := v.(type) {
+	case *Term:
+		return true
+	case Agg:
+		for _, e := range x {
+			if !scalarish(e) {
+				return false
+			}
+		}
+		return true
+	}
+	return false
+}
+
 // symPosLimit: symbolic element positions over backing arrays longer than this are
 // case-split into concrete positions instead of being encoded as ite chains.
 const symPosLimit = 24
@@ -936,7 +952,7 @@ func (ex *Exec) elemPathC(s *State, base Ptr, off, idx *Term, pend *pending) (Pa
 	if pos.IsConst() {
 		return PathElem{Idx: int(pos.U64())}, true
 	}
-	if arr, ok := ex.load(s, base).(Agg); ok && len(arr) > symPosLimit {
+	if arr, ok := ex.load(s, base).(Agg); ok && (len(arr) > symPosLimit || (len(arr) > 0 && !scalarish(arr[0]))) {
 		v, ok := ex.concretizeAny(s, pos, pend)
 		if !ok {
 			return PathElem{}, false
